@@ -1,0 +1,73 @@
+//go:build verif
+
+package rwriter
+
+// Contracts for the deductive checks in /verif (comment-only; no code).
+// Property C19 (server half): the provider response writer protocol.
+
+//@ spec func rwOK(w val) bool = w != nil && w.encoder != nil && w.w != nil
+
+// WriteProviderResult: one more result counted; in streaming mode the result is
+// encoded as one complete line and flushed, nothing is buffered; in JSON mode it
+// is appended to the buffered list and nothing is written.
+//@ func (*ProviderResponseWriter).WriteProviderResult
+//@   property C19
+//@   requires pw != nil && pw.encoder != nil
+//@   at call Encode#1: assert typeis(arg1, "model.ProviderResult") && pw.nd
+//@   ensures result == nil ==> pw.count == old(pw.count) + 1 || old(pw.count) == 9223372036854775807
+//@   ensures result != nil ==> pw.count == old(pw.count)
+//@   ensures-local old(pw.nd) ==> count("call:Encode") == 1 && len(pw.result.ProviderResults) == old(len(pw.result.ProviderResults))
+//@   ensures-local old(pw.nd) && result == nil ==> count("call:Flush") == 1
+//@   ensures-local !old(pw.nd) ==> count("call:Encode") == 0 && result == nil && len(pw.result.ProviderResults) == old(len(pw.result.ProviderResults)) + 1
+//@   ensures-local !old(pw.nd) ==> pw.result.ProviderResults[len(pw.result.ProviderResults) - 1].Provider == pr.Provider && pw.result.ProviderResults[len(pw.result.ProviderResults) - 1].ContextID == pr.ContextID && pw.result.ProviderResults[len(pw.result.ProviderResults) - 1].Metadata == pr.Metadata
+
+// Close: an empty result set is a 404 API error and nothing is written; in
+// streaming mode nothing more is written; in JSON mode exactly one response
+// holding the buffered results for the multihash is encoded.
+//@ func (*ProviderResponseWriter).Close
+//@   property C19
+//@   requires pw != nil && pw.encoder != nil
+//@   at call New#1: assert arg1 == 404 && pw.count == 0
+//@   ensures-local old(pw.count) == 0 ==> result != nil && count("call:Encode") == 0 && count("call:New") == 1
+//@   ensures-local old(pw.count) != 0 && old(pw.nd) ==> result == nil && count("call:Encode") == 0
+//@   ensures-local old(pw.count) != 0 && !old(pw.nd) ==> count("call:Encode") == 1 && count("call:New") == 0
+
+//@ func NewProviderResponseWriter
+//@   property C19
+//@   requires w != nil
+//@   ensures result != nil && result.count == 0 && len(result.result.ProviderResults) == 0 && result.nd == w.nd && result.result.Multihash == w.mh
+
+// New: every error caused by the request (Accept header, resource type, key) is
+// an API error with status 400; the streaming headers are set iff streaming.
+//@ func New
+//@   property C19
+//@   requires w != nil && r != nil && r.URL != nil
+//@   ghost optErr := false
+//@   at call getOpts#1: after ghost optErr := result1 != nil
+//@   at call New#1: assert arg1 == 400
+//@   at call New#2: assert arg1 == 400
+//@   at call New#3: assert arg1 == 400
+//@   at call New#4: assert arg1 == 400
+//@   at call New#5: assert arg1 == 400
+//@   at call New#6: assert arg1 == 400
+//@   at call New#7: assert arg1 == 400
+//@   at call New#8: assert arg1 == 400
+//@   ensures-local result1 != nil && !optErr ==> count("call:New") == 1 && typeis(result1, "*apierror.Error")
+//@   ensures-local result1 == nil ==> result0 != nil && count("call:New") == 0 && result0.status == 200
+//@   ensures-local result1 == nil ==> (result0.nd ==> count("call:Set") == 3) && (!result0.nd ==> count("call:Set") == 1)
+
+//@ func (*ResponseWriter).WriteHeader
+//@   property C19
+//@   requires w != nil && w.w != nil
+//@   ensures statusCode != 200 ==> w.status == statusCode
+//@   ensures statusCode == 200 ==> w.status == old(w.status)
+
+//@ func (*ResponseWriter).StatusCode
+//@   property C19
+//@   pure
+//@   requires w != nil
+//@   ensures result == w.status
+
+//@ func (*ResponseWriter).Flush
+//@   property C19
+//@   requires w != nil
